@@ -208,6 +208,9 @@ def generate(N, layout):
     return '\n'.join(o) + '\n'
 
 
+CSTR_ALIASES = ('fs__assign__pc', 'fs__op_assign__pc', 'fs__append__pc', 'fs__op_add_assign__pc', 'fs__insert__ul_pc', 'fs__replace__ul_ul_pc', 'fs__compare__pc_c', 'fs__compare__ul_ul_pc_c')
+
+
 def search_contracts(N):
     """capacity-bounded (N <= 8) specification of the search family, std::basic_string semantics, with the quantifiers over
     positions and characters written out (loop-free).  s is the needle (count characters, exactly that many readable)."""
@@ -302,6 +305,10 @@ def generate_more(N, layout):
     A('#define XSTR(p) (__CPROVER_is_fresh(p, sizeof(*(p))) && (p)->size <= 4 * FS_N && __CPROVER_is_fresh((p)->data, (p)->size + 1) && (p)->data[(p)->size] == 0)')
     A('#define FSTR(p) (OBJ(p) && WF(p))')
     A('#define AT(k) (&BUF(self)[0] + (k))')
+    # NUL-terminated C-string sources: xv_n (ghost) is the length, i.e. the terminator is at s[xv_n] and no NUL occurs before it
+    # (written out for the 4N positions the argument bound allows, so that strlen(s) == xv_n without a quantifier)
+    A('#define NZ4(p, n) (%s)' % ' && '.join('((n) <= %dul || (p)[%d] != 0)' % (k, k) for k in range(4 * N)))
+    A('#define CSTR(p) (xv_n <= 4 * FS_N && __CPROVER_is_fresh(p, xv_n + 1) && (p)[xv_n] == 0 && NZ4(p, xv_n))')
 
     class Src:
         """source range SRC[0, M): base pointer, total length, offset into it, requested count (None = the rest)"""
@@ -330,6 +337,9 @@ def generate_more(N, layout):
 
     def rng(first, last):
         return Src('(xv_n <= 4 * FS_N && __CPROVER_is_fresh(%s, xv_n) && %s == %s + xv_n)' % (first, last, first), first, 'xv_n')
+
+    def cs(p):
+        return Src('CSTR(%s)' % p, p, 'xv_n')
 
     def fill(cnt, c):
         return Src('(%s <= 4 * FS_N)' % cnt, None, None, None, cnt, c)
@@ -365,6 +375,14 @@ def generate_more(N, layout):
     splice('fs__assign__rfs', '0ul', '{L}', fs('rhs'))
     splice('fs__assign__Rfs', '0ul', '{L}', fs('rhs'))
     splice('fs__assign__T_pc__pc_pc', '0ul', '{L}', rng('first', 'last'))
+    if N <= 8:
+        # NUL-terminated C-string overloads (strlen unwound to the argument bound 4N + 1: see CSTR_ALIASES in props/C01.py)
+        splice('fs__assign__pc', '0ul', '{L}', cs('s'))
+        splice('fs__op_assign__pc', '0ul', '{L}', cs('s'))
+        splice('fs__append__pc', '{L}', '0ul', cs('s'))
+        splice('fs__op_add_assign__pc', '{L}', '0ul', cs('s'))
+        splice('fs__insert__ul_pc', 'index', '0ul', cs('s'), own_rerr='(index > {L})')
+        splice('fs__replace__ul_ul_pc', 'pos', MIN('count', '({L} - pos)'), cs('cstr'), own_rerr='(pos > {L})')
     # ---- insert by index
     splice('fs__insert__ul_rxv_str', 'index', '0ul', xs('str'), own_rerr='(index > {L})')
     splice('fs__insert__ul_rxv_str_ul_ul', 'index', '0ul', xs('str', 'index_str', 'count'), own_rerr='(index > {L})')
@@ -445,4 +463,7 @@ def generate_more(N, layout):
     compare('fs__compare__ul_ul_rfs_c', fs('str'), 'pos1', 'count1')
     compare('fs__compare__ul_ul_rxv_str_ul_ul_c', xs('str', 'pos2', 'count2'), 'pos1', 'count1')
     compare('fs__compare__ul_ul_pc_ul_c', CS, 'pos1', 'count1')
+    if N <= 8:
+        compare('fs__compare__pc_c', cs('s'))
+        compare('fs__compare__ul_ul_pc_c', cs('s'), 'pos1', 'count1')
     return '\n'.join(o) + '\n'
